@@ -157,7 +157,8 @@ func (ch *channel) ReadFcall(ctx context.Context, fcall *Fcall) error {
 
 	// clear out the fcall
 	*fcall = Fcall{}
-	if err := ch.codec.Unmarshal(ch.rdbuf[:n], fcall); err != nil {
+	// n counts the size field, which is not part of rdbuf.
+	if err := ch.codec.Unmarshal(ch.rdbuf[:n-channelMessageHeaderSize], fcall); err != nil {
 		return err
 	}
 
